@@ -24,7 +24,7 @@ TEXT = {
     "C01": {
         "technique": "model-based property testing (rapid): generated configurations and multi-round source histories drive the real sync.Run inside a testing/synctest bubble with a scripted system clock, scripted reference clocks/peers (in time, error, late, blocking) and a recording clock discipline; oracle = refusal predicate, one-correction-per-round invariant, the statement's bound, and an exact big-integer reference model of FTM/cutoff/clamp/midpoint",
         "level": "Generated search over configurations (incl. inadmissible ones), 0..7 reference clocks and peers, 1..8 rounds per history, offsets over the whole int64 range dense at the cutoff and both bounds. Exploration: tens of thousands of rounds per quick run, millions in the thorough tier.",
-        "note": "The real SystemClock (needs CAP_SYS_TIME) and the PLL are replaced by fakes; Drift proportionality is covered by C18. NaN impact factors are not generated. A real-time watchdog (90 s per case, normal cost < 1 ms) converts a hang into a violation with a replay file.",
+        "note": "The real SystemClock (needs CAP_SYS_TIME) and the PLL are replaced by fakes; Drift proportionality is covered by C18. NaN impact factors are generated among the inadmissible configurations (found and repaired: they were accepted, fix e9fb69f). A real-time watchdog (90 s per case, normal cost < 1 ms) converts a hang into a violation with a replay file.",
     },
     "C12": {
         "technique": "stateful property testing (rapid) of ntske.Provider under virtual time (testing/synctest) with the race detector: generated advance/Current/Get/burst sequences checked against a model of every key ever returned",
